@@ -290,6 +290,18 @@ Proof.
   rewrite ias15_compress_identity by lia. reflexivity.
 Qed.
 
+(* degenerate corners, stated explicitly: no particles (N = 0) compresses any allocation to 0 and a step with N = 0 never re-allocates;
+   nothing allocated (a = 0) stays 0; the empty schedule leaves every simulation and the globals untouched *)
+Lemma ias15_corners : (forall a, ias15_compress a 0 = 0) /\ (forall n, ias15_compress 0 n = 0) /\
+  (forall a, ias15_step_reallocates a 0 = false) /\ (forall n, ias15_step_reallocates 0 (S n) = true).
+Proof.
+  split; [|split; [|split]]; intros.
+  - unfold ias15_compress. cbn. destruct a; reflexivity.
+  - apply ias15_compress_identity. lia.
+  - unfold ias15_step_reallocates. cbn. reflexivity.
+  - unfold ias15_step_reallocates. apply Nat.ltb_lt. lia.
+Qed.
+
 (* LIMIT of the invisibility: it is about the SAME particle number.  If N grows back after the serialisation (remove a particle,
    serialise, add a particle) the compression does flip the next step's decision: unobserved run keeps the old arrays, observed one zeroes them *)
 Lemma ias15_compress_visible_when_N_grows_back : exists a n n', n < n' /\ 3 * n' <= a /\
